@@ -202,6 +202,8 @@ pub(crate) async fn git_cmd_diff_changes(
     if let Some(end) = end {
         args.push(end);
     }
+    // --: what precedes are revisions, also when a file of the same name exists
+    args.push("--");
     let mut child = get_git_cmd_child(git_path, work_path, &args).await?;
     let mut out = vec![];
     if let Some(mut stdout) = child.stdout.take() {
